@@ -121,6 +121,7 @@ def run(case, W):
         return Result(violation=("events-during-hold", "%s: %s" % qv.violation))
     delivered_during = False
     queued_behind = False
+    held_results = []
     for (start, rel, statuses) in windows:
         if rel is None:
             return Result(violation=("never-released", "hold entered at step %d was not released although release requests were scheduled" % start))
@@ -129,9 +130,18 @@ def run(case, W):
         if j < 0 or j >= len(res):
             return Result(violation=("harness-attribution", "cannot attribute hold at step %d" % start))
         payload, first_step, last_step = res[j]
+        held_results.append(res[j])
         if first_step < rel:
             return Result(violation=("result-during-hold", "hold entered at step %d, first release request at step %d, but the result code %r started at step %d" % (start, rel, payload, first_step)))
         want = set(b"OK" if x == 0 else b"ERROR" for x in statuses)
+        # requests that reach the library while it still reports the suspension (the free window after the first request) may be
+        # accepted as well, and which of several accepted requests decides the status is not fixed
+        for a in t.apis:
+            if a.name == "holdexit" and a.result == S.S_OK and rel < a.step < n and hold[a.step - 1] == S.S_HOLD and all(hold[x] == S.S_HOLD for x in range(rel, a.step)):
+                want.add(b"OK" if a.args[0] == 0 else b"ERROR")
+        for h in t.handlers:
+            if h.fsm == "u" and h.code in (HEX_OK, HEX_ERR) and rel < h.step < n and all(hold[x] == S.S_HOLD for x in range(rel, h.step)):
+                want.add(b"OK" if h.code == HEX_OK else b"ERROR")
         if payload not in want:
             return Result(violation=("wrong-status", "hold released with status(es) %r but the result code is %r" % (statuses, payload)))
         for r in t.reads:
@@ -155,26 +165,20 @@ def run(case, W):
             if stall_released:
                 delivered_during = True
     # cat_is_hold samples and queries; cat_hold_exit results
+    z = E.hold_zones(windows, hold, n)
     for st in range(n):
-        want = S.S_HOLD if exp_hold[st] else S.S_OK
-        if hold[st] != want:
-            return Result(violation=("is-hold", "after step %d cat_is_hold is %d, expected %d (hold windows %r)" % (st, hold[st], want, windows)))
-    spurious = []
-    for idx, a in enumerate(t.apis):
-        if a.insvc:
-            continue
-        prev = a.step - 1
-        held_before = prev >= 0 and prev < n and exp_hold[prev]
-        if a.name == "ishold" and a.step < n:
-            want = S.S_HOLD if held_before else S.S_OK
-            if a.result != want:
-                return Result(violation=("is-hold", "cat_is_hold queried before service call %d returned %d, expected %d (windows %r)" % (a.step, a.result, want, windows)))
-        if a.name == "holdexit" and a.step < n:
-            want = S.S_OK if held_before else S.S_NOT_HOLD
-            if a.result != want:
-                return Result(violation=("hold-exit-result", "cat_hold_exit before service call %d returned %d, expected %d (windows %r)" % (a.step, a.result, want, windows)))
-            if not held_before:
-                spurious.append(a)
+        if (z[st] == "H" and hold[st] != S.S_HOLD) or (z[st] == "O" and hold[st] != S.S_OK):
+            return Result(violation=("is-hold", "after step %d cat_is_hold is %d, expected %s (hold windows %r)" % (st, hold[st], "HOLD" if z[st] == "H" else "OK", windows)))
+    # ... and the free window after a release request closes at the latest when the held line's result code is completely out
+    for (start, rel, statuses), (payload, first_step, last_step) in zip(windows, held_results):
+        for st in range(last_step + 1, n):
+            if z[st] != "?":
+                break
+            if hold[st] == S.S_HOLD:
+                return Result(violation=("is-hold", "cat_is_hold still reports HOLD after step %d although the result code of the held line was completed in step %d" % (st, last_step)))
+    v, spurious = E.judge_hold_api(t, z, n)
+    if v:
+        return Result(violation=(v[0], v[1] + " (windows %r)" % (windows,)))
     runs = 1
     if spurious:
         # differential: the same run without the spurious calls is trace-identical
